@@ -96,7 +96,7 @@ def report(ctx, item, rec, ex, origin):
         want = "cases"
     key = dict(obs_kind=obs["kind"], obs_class=obs.get("class", ""), want_kind=want,
                entry_cert=ent["cert"] if ent else "", entry_tls=ent["tls"] if ent else "",
-               n_missing=len(ex["missing"]), n_extra=len(ex["extra"]), cfg=cfg_text(cfg))
+               missing=len(ex["missing"]) > 0, extra=len(ex["extra"]) > 0)
     if obs["kind"] == "cases":
         got = "%d cases (dups=%d); missing %d: %s; extra %d: %s" % (
             len(obs["cases"]), obs["dups"], len(ex["missing"]), " ".join(decode(k) for k in sorted(ex["missing"])[:4]),
@@ -143,7 +143,7 @@ def run(ctx):
             ("include", dict(VERIF_ESTRIDE=ctx.pick(8, 1)), None),
             ("exclude", dict(VERIF_ESTRIDE=ctx.pick(8, 1)), None),
             ("lists", dict(VERIF_ESTRIDE=ctx.pick(2, 1)), None),
-            ("walk", {}, "num=%d" % ctx.pick(1500, 25000))]
+            ("walk", {}, "num=%d" % ctx.pick(1500, 15000))]
     scnp = os.path.join(ctx.build, "c06.scn.ndjson")
     counts = {}
     total = 0
@@ -209,7 +209,7 @@ def run(ctx):
 
     # ---- 3. code -> spec: parseConfig on random configurations beyond the TLC domain + shipped files
     trp = os.path.join(ctx.build, "c06.trace.ndjson")
-    ctx.run_harness(binp, "TestVerifC06Record", env=dict(VERIF_OUT=trp, VERIF_N=ctx.pick(4000, 60000),
+    ctx.run_harness(binp, "TestVerifC06Record", env=dict(VERIF_OUT=trp, VERIF_N=ctx.pick(12000, 60000),
                     VERIF_YAML_DIR=os.path.join(vf.REPO, "testing")), timeout=3000)
     recs = vf.read_ndjson(trp)
     files = [r for r in recs if r["src"].startswith("file:")]
